@@ -33,6 +33,12 @@ TEMPLATES = [
     'def function_one(first_param):\n    if first_param == {L}:\n        return {L}\n    elif first_param is {L}:\n        return {L}\n    return 1 == 1.0, 1 is True, 0 == False, {L}\n',
     'def generator_function():\n    del_value = {L}\n    del del_value\n    yield {L}\n    yield {L}\n    yield {L}\n',
     'value_one = (1, 1.0, True, 1, 1.0, True, 1, 1.0, True)\nvalue_two = (0, 0.0, False, 0, 0.0, False, 0, 0.0, False, -0.0, -0.0)\n',
+    # names spelled like the aliases the hoister hands out already exist where the literal is used
+    'class SettingsClass:\n    _A = 8080\n    host_value = {L}\n    fallback_value = {L}\n    other_value = ({L}, {L}, _A)\n',
+    'def function_one():\n    _A = 1\n    A = 2\n    return {L}, {L}, {L}, {L}, _A, A\n',
+    '_A = 5\n_B = 6\nvalue_one = {L}, {L}, {L}, {L}, _A\ndef function_one(A, B=2):\n    return {L}, {L}, A, B, _B\n',
+    'class OuterClass:\n    class InnerClass:\n        _A = {L}\n        _B = {L}\n    A = {L}\n    def method_one(self, _A={L}):\n        return _A, {L}, {L}\n',
+    'def outer_function():\n    _A = {L}\n    def inner_function():\n        nonlocal _A\n        _A = {L}\n        return {L}, {L}\n    return inner_function\n',
 ]
 
 
